@@ -1,6 +1,6 @@
 """C16 -- region graphs (structural clauses)."""
 from ..core import Ctx, Ob, PropSpec
-from ..rules import extra2, r8, r9
+from ..rules import extra2, r7n, r8, r9
 
 
 def run(ctx: Ctx) -> list[Ob]:
@@ -13,7 +13,7 @@ def run(ctx: Ctx) -> list[Ob]:
             "validates-on-construction",
             "every region graph handed out by the construction algorithms is validated only here",
         )
-    ] + r8.run_guards(ctx, r8.GUARDS_REGION_GRAPH) + r9.r9(ctx, ["cirkit.templates.region_graph.graph.RegionGraph.build_circuit"]) + (r9.r9_sweep(ctx) if ctx.tier == "thorough" else [])
+    ] + r8.run_guards(ctx, r8.GUARDS_REGION_GRAPH) + r9.r9(ctx, ["cirkit.templates.region_graph.graph.RegionGraph.build_circuit"]) + (r9.r9_sweep(ctx) if ctx.tier == "thorough" else []) + r7n.structured(ctx) + r7n.identity(ctx)
 
 
 SPEC = PropSpec(
@@ -27,9 +27,9 @@ SPEC = PropSpec(
         "into disjoint non-empty regions covering it'); R9 (path rule on the CFG of RegionGraph.build_circuit): no path leads from the true branch of isinstance(node, A) to an "
         "assertion / branch that requires isinstance(node, B) for a class B disjoint from A without re-binding the loop variable or "
         "leaving the iteration -- such a path is a certain crash for every A node, i.e. build_circuit cannot succeed on any region "
-        "graph for that argument combination. Thorough tier: the same rule over every isinstance-dispatched loop in cirkit/."
+        "graph for that argument combination. Thorough tier: the same rule over every isinstance-dispatched loop in cirkit/. R7n: RegionGraph.is_structured_decomposable compares decompositions per *scope* (keyed by .scope), not per region node, and no mapping of the class goes from a scope to a node or node index (several region nodes may share a scope: dump / load would re-attach partitions to another parent)."
     ),
     not_decided="validity of the generated graphs as a function of run-time sizes / seeds; sufficiency of _check_structure; JSON round trip.",
     run=run,
-    floors={"R9": 1, "R8": 6, "R6": 1},
+    floors={"R7n": 2, "R9": 1, "R8": 6, "R6": 1},
 )
